@@ -624,7 +624,9 @@ class TaskHandler(PoolThread):
                     continue
                 break
             except Exception:
-                job, ind = task[1][:2] if task else (0, 0)
+                # no task was produced: there is no job to blame
+                # (job ids start at 0, so (0, 0) named a real job).
+                job, ind = task[1][:2] if task else (None, 0)
                 if job in cache:
                     cache[job]._set((ind or 0) + 1, (False, ExceptionInfo()))
                 if set_length:
